@@ -78,6 +78,19 @@ class AxisArguments(Contract):
                         fn="expand_dims", rank=1, axis=[0, 2]))
         out.append(dict(label="expand_dims;rank=1;axis=(-1,0)",
                         fn="expand_dims", rank=1, axis=[-1, 0]))
+        # tuples of new axes in *any* order (NumPy places them at the
+        # normalised positions, whatever the order they are listed in),
+        # repeated and out-of-range entries included
+        for r, k in ((2, 2), (1, 3)) if tier != "thorough" else \
+                ((2, 2), (1, 3), (3, 2), (2, 3)):
+            out_nd = r + k
+            for axes in itertools.product(range(-out_nd - 1, out_nd + 1),
+                                          repeat=k):
+                if k == 3 and tier != "thorough" and sum(axes) % 4:
+                    continue
+                out.append(dict(
+                    label=f"expand_dims;rank={r};axis={tuple(axes)}",
+                    fn="expand_dims", rank=r, axis=list(axes)))
         return out
 
     def canaries(self, tier):
@@ -168,7 +181,7 @@ from pyvc.replaylib import M_from, mint, reproduced
 M = M_from(MODEL)
 inst = {inst!r}
 fn, r, ax = inst["fn"], inst["rank"], inst["axis"]
-shape = tuple(max(1, mint(M, f"n{{d}}", 2)) if fn != "squeeze" else 1 for d in range(r))
+shape = tuple(max(0, mint(M, f"n{{d}}", 2)) if fn != "squeeze" else 1 for d in range(r))
 a = pt.make_placeholder("a", shape, np.float64); b = pt.make_placeholder("b", shape, np.float64)
 na = np.zeros(shape)
 calls = dict(
